@@ -11,9 +11,10 @@ from simlib import Rng, subseed
 HASHES = ["sha1", "sha256", "blake3", "xxhash", "crc32", "crc64"]
 
 
-def gen_history(seed, tier, cache=False, nsteps=(2, 6)):
+def gen_history(seed, tier, cache=False, nsteps=(2, 6), multi_out_p=0.25):
     rng = Rng(seed)
-    spec = rs.gen_repo(rng, n_targets=(3, 10), n_pkgs=(1, 3), dep_density=0.6, use_defs_p=0.2, max_fanin=5, env_p=0.15)
+    spec = rs.gen_repo(rng, n_targets=(3, 10), n_pkgs=(1, 3), dep_density=0.6, use_defs_p=0.2, max_fanin=5, env_p=0.15,
+                       subdir_out_p=0.3 if cache else 0.1, dir_p=0.35 if cache else 0.15, multi_out_p=multi_out_p)
     spec["config"]["hash"] = rng.choice(HASHES)
     spec["config"]["xattrs"] = rng.chance(0.75)
     if cache:
@@ -25,12 +26,21 @@ def gen_history(seed, tier, cache=False, nsteps=(2, 6)):
     steps = []
     n = rng.rng(*nsteps)
     cur = rs.clone(spec)
+    aba = cache and rng.chance(0.6)   # tree goes A, B, A, C, A ...: restores over outputs of another state
     for i in range(n):
         r = rng.intn(100)
-        if cache and r < 30:
+        if aba and i % 2 == 1 and len(states) > 1:
+            k = rng.intn(len(states) - 1)
+            cur = rs.clone(states[k])
+            states.append(rs.clone(cur))
+            steps.append({"kind": "edit", "desc": "revert to state %d" % k, "state": len(states) - 1})
+            continue
+        if aba:
+            r = 50 + rng.intn(50)    # an edit, not a deletion
+        if cache and r < 15:
             steps.append({"kind": "rm-plz-out", "desc": "rm -rf plz-out", "state": len(states) - 1})
             continue
-        if r < 12 and len(states) > 1:
+        if r < (40 if cache else 12) and len(states) > 1:
             k = rng.intn(len(states))
             cur = rs.clone(states[k])
             states.append(rs.clone(cur))
@@ -44,7 +54,7 @@ def gen_history(seed, tier, cache=False, nsteps=(2, 6)):
             continue
         desc = None
         for _ in range(6):
-            op = rng.choice(hl.EDIT_OPS)
+            op = rng.choice(hl.EDIT_OPS + ([hl.op_dir_rename, hl.op_dir_add_entry, hl.op_edit_content_len] * 2 if cache else [hl.op_dir_add_entry, hl.op_edit_content_len]))
             nxt = rs.clone(cur)
             desc = op(rng, nxt)
             if desc:
@@ -104,7 +114,7 @@ def exec_history_c01(bindir, hist, check_noop=False, c03=False):
             if (res.exit == 0) != (clean["exit"] == 0):
                 out.append(("exit-mismatch", "step %d (%s): incremental build exited %d, clean build of the same tree exited %d; incremental stderr: %s; clean stderr: %s" % (i, step["desc"], res.exit, clean["exit"], res.stderr[-500:], clean["stderr"][-500:]), i))
                 break
-            if res.exit == 0:
+            if res.exit == 0 and not c03:
                 diffs, kinds = w.compare_outputs(clean)
                 if diffs:
                     cls = "stale-output"
@@ -267,9 +277,24 @@ def replay_c03(bindir, rp):
 
 def gen_history_c32(seed, tier):
     rng = Rng(seed)
-    hist = gen_history(seed, tier, cache=rng.chance(0.3), nsteps=(1, 2))
-    hist["prebuild"] = rng.chance(0.7)     # a successful build of state 0 before the edits
-    hist["points"] = 8 if tier == "quick" else 0   # 0 = every FS operation
+    restore = rng.chance(0.35)
+    hist = gen_history(seed, tier, cache=restore or rng.chance(0.2), nsteps=(1, 2), multi_out_p=0.6 if restore else 0.25)
+    hist["prebuild"] = restore or rng.chance(0.7)     # a successful build of state 0 before the edits
+    if restore:
+        # A is built and stored, the tree moves to B and is built, then back to A: the victim build
+        # restores A's artifacts from the directory cache over B's outputs, and is killed doing so
+        edits = [st for st in hist["steps"] if st["kind"] == "edit" and not st["desc"].startswith("revert")][:1]
+        if edits:
+            edits[0]["build"] = True
+            hist["states"].append(rs.clone(hist["states"][0]))
+            hist["steps"] = edits + [{"kind": "edit", "desc": "revert to state 0", "state": len(hist["states"]) - 1}]
+            hist["restore_variant"] = True
+            if rng.chance(0.8):
+                # uncompressed entries are hard links that carry the storing build's hash records with them
+                for st in hist["states"]:
+                    st["config"]["dircompress"] = False
+                    st["config"]["xattrs"] = True
+    hist["points"] = 10 if tier == "quick" else 0   # 0 = every FS operation
     hist["kill_in_cmd"] = rng.chance(0.5)
     return hist
 
@@ -292,8 +317,14 @@ def exec_history_c32(bindir, hist):
             res, _ = w.plz(args, subseed(hist["seed"], "pre"))
             if res.exit != 0:
                 return out, w.stats, w.sigs   # generator produced something unbuildable; nothing to check
-        for step in hist["steps"]:
+        for si, step in enumerate(hist["steps"]):
             spec = apply_step(w, hist, step)
+            if step.get("build"):
+                bres, _ = w.plz(args, subseed(hist["seed"], "mid%d" % si))
+                if bres.exit != 0:
+                    return out, w.stats, w.sigs
+        if hist.get("restore_variant"):
+            w.stats["restore_variant_histories"] = w.stats.get("restore_variant_histories", 0) + 1
         clean = w.clean_build(spec, hist["req"])
         if clean["exit"] != 0:
             return out, w.stats, w.sigs
@@ -321,7 +352,18 @@ def exec_history_c32(bindir, hist):
         if explicit:
             points = explicit
         elif hist.get("points"):
-            points = sorted(rng.sample(points, min(hist["points"], len(points))))
+            # half of the sampled crash points land on operations that touch outputs or their records in
+            # plz-out/gen|bin (moves, links, unlinks, xattrs), where partially updated state is created
+            hot = [int(f[1]) for f in res.fsops() if len(f) > 3 and (f[3].startswith("plz-out/gen") or f[3].startswith("plz-out/bin"))]
+            k = min(hist["points"], len(points))
+            if hist.get("restore_variant"):
+                # a restore runs no commands and is cheap: take every output-touching operation (up to 60)
+                chosen = set(rng.sample(hot, min(60, len(hot)))) if hot else set()
+            else:
+                chosen = set(rng.sample(hot, min(k // 2 + 2, len(hot)))) if hot else set()
+            rest = [n for n in points if n not in chosen]
+            chosen |= set(rng.sample(rest, min(max(0, k - len(chosen)) + 2, len(rest))))
+            points = sorted(chosen)
         plans = [("fs", n) for n in points]
         # crash from inside a running command (after its first output was written)
         if hist.get("kill_in_cmd") and not explicit:
